@@ -359,6 +359,18 @@ func describeValue(v ssa.Value) string {
 		return "captured " + x.Name()
 	case *ssa.Alloc:
 		return "local " + x.Comment
+	case *ssa.IndexAddr:
+		return "&" + describeValue(x.X) + "[…]"
+	case *ssa.Extract:
+		return describeValue(x.Tuple) + fmt.Sprintf("#%d", x.Index)
+	case *ssa.Phi:
+		if x.Comment != "" {
+			return "var " + x.Comment
+		}
+	case *ssa.MakeSlice:
+		return "make"
+	case *ssa.Lookup:
+		return describeValue(x.X) + "[…]"
 	}
 	return fmt.Sprintf("%T", v)
 }
